@@ -11,6 +11,7 @@ the default is switched to a decoy before `fit`):
 """
 import copy
 import math
+import pickle
 import warnings
 
 from ..shim import dp, np
@@ -221,12 +222,13 @@ def n_spends(sc):
 def make_accountants(sc):
     """target (index 0), decoy default (1), decoy (2)"""
     eps = sc["eps"]
-    prior = [(p, 0) for p in sc["prior"]]
+    prior = [(p, 0) for p in sc["prior"]]       # the CALLER's list: the target is restored from this very object
+    sc["_caller_list"] = prior
     st = sc["state"]
     TA = ACC_KINDS[sc.get("acc_kind", "plain")]
     DA = ACC_KINDS[sc.get("decoy_kind", "plain")]
     if st == "unlimited":
-        target = TA(spent_budget=prior or None)
+        target = TA(spent_budget=prior)
     else:
         slack = 0.0
         delta = 0.0
@@ -247,10 +249,11 @@ def make_accountants(sc):
         else:
             ceil = c_eq * gen.SplitMix64(sc["seed"]).choice([1.0000001, 1.5, 4.0]) + (0.0 if prior else 0.0)
         try:
-            target = TA(ceil, delta, slack, spent_budget=prior or None)
+            target = TA(ceil, delta, slack, spent_budget=prior)
         except Exception:
             # the prior spends alone do not fit this ceiling (slack composition is not monotone in the list order)
-            target = TA(ceil, delta, slack)
+            del prior[:]
+            target = TA(ceil, delta, slack, spent_budget=prior)
             sc["prior"] = []
     dk = sc["decoy"]
     if dk == "unlimited":
@@ -261,6 +264,17 @@ def make_accountants(sc):
         decoy_default = DA(eps * 10 + 1.0, 0, spent_budget=[(0.3, 0)])
     decoy2 = BA(eps * 3, 0)
     return [target, decoy_default, decoy2]
+
+
+def relatives(target, caller_list):
+    """accountants that share provenance with the target without being it: restored from the same caller-owned list
+    object, from the target's spent_budget, deep copy, pickle round trip (must never move when the target is charged),
+    and a shallow copy.copy (Python's shallow-copy semantics share the ledger: observed and counted, no verdict)"""
+    rel = {"same-list": BA(spent_budget=caller_list),
+           "from-spent_budget": BA(spent_budget=target.spent_budget),
+           "deepcopy": copy.deepcopy(target),
+           "pickle": pickle.loads(pickle.dumps(target))}
+    return rel, copy.copy(target)
 
 
 def snapshot(accs):
@@ -370,6 +384,11 @@ def run_scenario(sc):
     try:
         accs = make_accountants(sc)
         target, decoy_default, decoy2 = accs
+        caller_list = sc.pop("_caller_list")
+        caller_before = list(caller_list)
+        rel, shallow = relatives(target, caller_list)
+        rel_before = snapshot(list(rel.values()))
+        shallow_before = snapshot([shallow])
         decoy_default.set_default()
         eps = sc["eps"]
         # oracle: does epsilon fit the target's remaining budget?
@@ -451,6 +470,11 @@ def run_scenario(sc):
         res = {"kind": kind, "calls": n_calls, "before": before, "after": after, "fits": fits, "dflt_construct": dflt_construct,
                "dflt_fit": dflt_fit, "exc": repr(exc)[:200] if exc else None}
         res["audit_new"] = [(float(e), float(d)) for e, d in target.audit[audit0:]] if audit0 is not None else None
+        rel_after = snapshot(list(rel.values()))
+        res["relatives_changed"] = [f"{k}: {b[0][len(a[0]) - 0:] if b[0][:len(a[0])] == a[0] else b[0]}"
+                                    for k, a, b in zip(rel, rel_before, rel_after) if a != b]
+        res["caller_list_changed"] = None if caller_list == caller_before else [caller_before, list(caller_list)]
+        res["shallow_copy_moved"] = snapshot([shallow]) != shallow_before
         res["state_changed"] = []
         if model is not None and exc is not None:
             sa = state_repr(model)
@@ -486,6 +510,12 @@ def verdict(sc, res):
            f"state={sc['state']} mode={sc['mode']}{'+nested-with-block' if sc.get('nested_with') else ''} " \
            f"decoy-default={sc['decoy']} prior={sc['prior']} accountant={sc.get('acc_kind', 'plain')}" \
            f"{' config=' + str(sc['config']) if sc.get('config') else ''}"
+    if res.get("caller_list_changed"):
+        return (f"C09:{entry}:caller-list-modified", f"{desc}: the list the target was restored from (spent_budget=lst) was "
+                f"{res['caller_list_changed'][0]} and is now {res['caller_list_changed'][1]}")
+    if res.get("relatives_changed"):
+        return (f"C09:{entry}:shared-ledger", f"{desc}: accountants that only share provenance with the accountant in force "
+                f"were charged too: {res['relatives_changed']}")
     if res["kind"].startswith("other"):
         return (f"C09:{entry}:unexpected-exception", f"{desc}: raised {res['exc']}")
     if appended is None or before[0][1:] != after[0][1:]:
@@ -677,6 +707,8 @@ def check(ctx):
         ctx.case(key_of(sc, res) if sc["state"] != "unlimited" else None)
         ctx.count("result:" + res["kind"])
         ctx.count("mechanism_invocations", res["calls"])
+        if res.get("shallow_copy_moved"):
+            ctx.count("copy.copy_of_the_accountant_shares_its_ledger")
         if res["verdict"]:
             T.report(ctx, res["verdict"][0], res["verdict"][1],
                      {"scenario": sc, "result": {k: res[k] for k in ("kind", "calls", "fits", "exc")}})
